@@ -321,6 +321,7 @@ func (c *Conn) writeFrame(ctx context.Context, fin bool, flate bool, opcode opco
 		return n, err
 	}
 	c.vEv("WfPayload", int64(n), 0, 0, 0)
+	c.vCtl("WfCtl", opcode, p)
 
 	if c.writeHeader.fin {
 		err = c.bw.Flush()
